@@ -1,5 +1,5 @@
 ---------------------------- MODULE RevSetsGen ----------------------------
-(* C15 case generator (U2, constant level).  For one wire format, TLC enumerates every
+(* C15 case generator (U2, constant level).  For each wire format, TLC enumerates every
    revocation set with up to MaxEntries (issuer, serial) entries over 2 issuers x NSerials
    serials x the blocked-key options, and for each writes one JSON line
 
@@ -7,11 +7,12 @@
 
    where wire is the byte term of the well-formed encoding (RevSets.tla section 3), parsed
    the structure the parser must deliver (section 2) and checks[q] the verdict for query
-   certificate q (1 must be reported, 0 must not, 2 left open; section 1).  The query
-   universe is written once to revsets_queries.ndjson. *)
+   certificate q (1 must be reported, 0 must not, 2 left open; section 1) to
+   revsets_cases_<format>.ndjson.  The query universe is written once to
+   revsets_queries.ndjson. *)
 EXTENDS RevSets, TLC, Json, SequencesExt, FiniteSetsExt
 
-CONSTANTS Format,       \* "crlset" | "onecrl" | "sst"
+CONSTANTS Formats,      \* subset of {"crlset", "onecrl", "sst"}; one case file per format
           MaxEntries,
           NSerials,     \* 1..4: how many serials of the universe may be listed
           AllVariants   \* TRUE: every encoding variant of every set; FALSE: one per set
@@ -29,11 +30,11 @@ I2 == [n |-> "N2", k |-> "K2"]
 EntryVals  == {[iss |-> i, s |-> SerialU[j]] : i \in {I1, I2}, j \in 1..NSerials}
 EntryLists == UNION {[1..k -> EntryVals] : k \in 0..MaxEntries}
 
-\* blocked options: none / the key of issuer I1 / the key of a leaf (own-key case)
-BKeyOpts  == IF Format = "crlset" THEN {<<>>, <<"K1">>, <<"KS1">>, <<"KS1", "K2">>} ELSE {<<>>}
-BSubjOpts == IF Format = "onecrl" THEN {<<>>, <<[subj |-> "S1", key |-> "KS1"]>>} ELSE {<<>>}
+\* blocked options: none / the key of issuer I1 / the key of a leaf (own-key case) / both kinds
+BKeyOpts(f)  == IF f = "crlset" THEN {<<>>, <<"K1">>, <<"KS1">>, <<"KS1", "K2">>} ELSE {<<>>}
+BSubjOpts(f) == IF f = "onecrl" THEN {<<>>, <<[subj |-> "S1", key |-> "KS1"]>>} ELSE {<<>>}
 
-Sets == {[entries |-> e, bkeys |-> bk, bsubj |-> bs] : e \in EntryLists, bk \in BKeyOpts, bs \in BSubjOpts}
+Sets(f) == {[entries |-> e, bkeys |-> bk, bsubj |-> bs] : e \in EntryLists, bk \in BKeyOpts(f), bs \in BSubjOpts(f)}
 
 (* query certificates: issuer (name, key) pairs - the two listed CAs, a CA with I1's name
    but I2's key (name/key crossing), an unrelated CA; every listed serial and one that is
@@ -44,41 +45,37 @@ QSerials    == {SerialU[j] : j \in 1..NSerials} \cup {Unlisted}
 Queries == SetToSeq({[iname |-> ip[1], ikey |-> ip[2], serial |-> s, subj |-> lp[1], skey |-> lp[2]] :
                        ip \in IssuerPairs, s \in QSerials, lp \in LeafPairs})
 
-Variants ==
-  CASE Format = "crlset" -> {[strip |-> b, bfirst |-> FALSE, nprops |-> 0] : b \in BOOLEAN}
-    [] Format = "onecrl" -> {[strip |-> b, bfirst |-> c, nprops |-> 0] : b \in BOOLEAN, c \in BOOLEAN}
-    [] Format = "sst"    -> {[strip |-> FALSE, bfirst |-> FALSE, nprops |-> n] : n \in 0..2}
+Variants(f) ==
+  CASE f = "crlset" -> {[strip |-> b, bfirst |-> FALSE, nprops |-> 0] : b \in BOOLEAN}
+    [] f = "onecrl" -> {[strip |-> b, bfirst |-> c, nprops |-> 0] : b \in BOOLEAN, c \in BOOLEAN}
+    [] f = "sst"    -> {[strip |-> FALSE, bfirst |-> FALSE, nprops |-> n] : n \in 0..2}
 
-Wire(set, v)    == WireOf(Format, set, v)
-Parsed(set)     == ParsedOf(Format, set)
-Allowed(set, c) == AllowedOf(Format, set, c)
-
-Case(set, v) ==
-  [fmt |-> Format, set |-> set, var |-> v, wire |-> Wire(set, v), parsed |-> Parsed(set),
-   checks |-> [q \in 1..Len(Queries) |-> Verdict(Allowed(set, Queries[q]))]]
-
-SetSeq == SetToSeq(Sets)
-VarSeq == SetToSeq(Variants)
+Case(f, set, v) ==
+  [fmt |-> f, set |-> set, var |-> v, wire |-> WireOf(f, set, v), parsed |-> ParsedOf(f, set),
+   checks |-> [q \in 1..Len(Queries) |-> Verdict(AllowedOf(f, set, Queries[q]))]]
 
 \* cases as a sequence (never a set: terms are heterogeneous tuples)
-Cases ==
+CasesOf(f) ==
+  LET ss == SetToSeq(Sets(f))
+      vs == SetToSeq(Variants(f)) IN
   IF AllVariants
-  THEN [i \in 1..(Len(SetSeq) * Len(VarSeq)) |->
-          Case(SetSeq[((i - 1) \div Len(VarSeq)) + 1], VarSeq[((i - 1) % Len(VarSeq)) + 1])]
-  ELSE [i \in 1..Len(SetSeq) |-> Case(SetSeq[i], VarSeq[(i % Len(VarSeq)) + 1])]
+  THEN [i \in 1..(Len(ss) * Len(vs)) |-> Case(f, ss[((i - 1) \div Len(vs)) + 1], vs[((i - 1) % Len(vs)) + 1])]
+  ELSE [i \in 1..Len(ss) |-> Case(f, ss[i], vs[(i % Len(vs)) + 1])]
 
 \* sanity of the A layer itself, checked by TLC on every generated set: a listed entry is
 \* always reported for a certificate of that issuer and serial, in every format
 ListedIsReported ==
-  \A s \in Sets : \A i \in 1..Len(s.entries) :
+  \A f \in Formats : \A s \in Sets(f) : \A i \in 1..Len(s.entries) :
     LET c == [iname |-> s.entries[i].iss.n, ikey |-> s.entries[i].iss.k, serial |-> s.entries[i].s,
               subj |-> "S2", skey |-> "KS2"] IN
     CRLSetRevokes(s, c) /\ OneCRLRevokes(s, c) /\ SSTRevokes(s, c)
 
 ASSUME ListedIsReported
 ASSUME ndJsonSerialize("revsets_queries.ndjson", <<[queries |-> Queries]>>)
-ASSUME ndJsonSerialize("revsets_cases.ndjson", Cases)
-ASSUME PrintT(<<"CASES", Len(Cases), Len(Queries)>>)
+ASSUME \A f \in Formats :
+         LET cs == CasesOf(f) IN
+         /\ ndJsonSerialize("revsets_cases_" \o f \o ".ndjson", cs)
+         /\ PrintT(<<"CASES", f, Len(cs), Len(Queries)>>)
 
 VARIABLE done
 Init == done = TRUE
